@@ -488,6 +488,32 @@ func (x *g) genType(depth int, self string) *spec.Type {
 		maxDepth = 3
 	}
 	c := x.r.Intn(20)
+	if depth <= 2 && x.chance(1, 25) {
+		// three collections deep (the transform code needs distinct loop variables per nesting level)
+		leaf := &spec.Attr{Type: &spec.Type{Kind: x.r.Pick(spec.Int, spec.String, spec.UInt32, spec.Boolean, spec.Float64)}}
+		if leaf.Type.Kind == spec.Boolean && (x.o.Profile == "grpc" || x.o.Runtime) {
+			leaf.Type.Kind = spec.String
+		}
+		arr := func(e *spec.Attr) *spec.Attr { return &spec.Attr{Type: &spec.Type{Kind: spec.Array, Elem: e}} }
+		mp := func(e *spec.Attr) *spec.Attr {
+			return &spec.Attr{Type: &spec.Type{Kind: spec.Map, Key: &spec.Attr{Type: &spec.Type{Kind: spec.String}}, Elem: e}}
+		}
+		shapes := []*spec.Attr{mp(arr(mp(leaf))), arr(mp(arr(leaf))), mp(mp(arr(leaf))), arr(arr(mp(leaf))), mp(arr(arr(leaf))), mp(mp(mp(leaf)))}
+		x.s.AddFeature("deep-collection", "map", "nested-array")
+		// collections of collections of a named object type (they need conversion between service and body types)
+		var objs []*spec.UserType
+		for _, t := range x.s.Types {
+			if t.Kind == "type" && t.Def != nil && t.Def.Kind == spec.Object && !t.ErrorOnly && t.Name != self && !strings.HasPrefix(t.Name, "BinKeyAlias") {
+				objs = append(objs, t)
+			}
+		}
+		if len(objs) > 0 && x.o.Profile != "grpc" && x.chance(1, 2) {
+			ul := &spec.Attr{Type: &spec.Type{Kind: spec.Ref, Ref: objs[x.r.Intn(len(objs))].Name}}
+			shapes = []*spec.Attr{arr(arr(ul)), arr(mp(ul)), mp(arr(ul)), mp(mp(ul))}
+			x.s.AddFeature("deep-collection-usertype")
+		}
+		return shapes[x.r.Intn(len(shapes))].Type
+	}
 	switch {
 	case c < 9 || depth > maxDepth:
 		return &spec.Type{Kind: x.prim()}
